@@ -147,6 +147,10 @@ def do_check(pid, mod, args, seed, scratch):
         shards = [s for s in shards if args.only in s["name"]]
     if tier == "quick":
         shards.sort(key=lambda s: -float(s.get("cost", s.get("budget", 60))))  # longest first: best packing
+        # the per-shard budgets in props/ are sized for an idle 16-core machine; leave head-room for a loaded one
+        scale = float(os.environ.get("VERIF_QUICK_BUDGET_SCALE", "2"))
+        for s in shards:
+            s["budget"] = float(s.get("budget", 60)) * scale
     else:
         shards.sort(key=lambda s: (0 if s.get("_quick") else 1, float(s.get("cost", s.get("budget", 60)))))  # quick shards, then cheapest first
         for s in shards:
